@@ -26,6 +26,7 @@ type Op struct {
 	N      uint64   `json:"n"`
 	Scopes []string `json:"scopes,omitempty"`
 	Slow   bool     `json:"slow,omitempty"` // join with a 4 KiB receive buffer (a peer that will stall)
+	TS     string   `json:"ts,omitempty"`   // join: suffix of this peer's OWN session id (topic + suffix), "" = the scenario's topic
 	Size   int      `json:"size,omitempty"`
 	MT     int      `json:"mt,omitempty"`
 	ID     uint64   `json:"id,omitempty"`
@@ -41,11 +42,13 @@ type FrameObs struct {
 }
 
 type Seen struct {
-	N      uint64     `json:"n"`
-	Scopes []string   `json:"scopes"`
-	Frames []FrameObs `json:"frames"`
-	End    int        `json:"end"` // 0 connected to the end, 1 cut by the server, 2 left / ended by oversize
-	How    string     `json:"how,omitempty"`
+	N       uint64     `json:"n"`
+	Scopes  []string   `json:"scopes"`
+	TS      string     `json:"ts,omitempty"`
+	Refused string     `json:"refused,omitempty"`
+	Frames  []FrameObs `json:"frames"`
+	End     int        `json:"end"` // 0 connected to the end, 1 cut by the server, 2 left / ended by oversize
+	How     string     `json:"how,omitempty"`
 }
 
 type WOp struct {
